@@ -71,6 +71,36 @@ def header_writer_rules(prog, chk, pid):
                     hdr_ok = canon(show_segs(hdr, 30)) == canon(show_segs(segs[:3], 30))
                 except Unsupported:
                     hdr_ok = False
+            else:
+                # a sum of lengths of the pieces emitted before the body (constant pieces may already be folded to their length)
+                leaves, const_len, lin_ok = [], 0, True
+                todo = [off]
+                while todo and lin_ok:
+                    x = unsnap(todo.pop(0))
+                    if x.op == "bin" and x.args[0] == "Add":
+                        todo[:0] = [x.args[1], x.args[2]]
+                    elif x.op == "len":
+                        leaves.append(x.args[0])
+                    elif is_const(x) and isinstance(cval(x), int) and not isinstance(cval(x), bool) and cval(x) >= 0:
+                        const_len += cval(x)
+                    else:
+                        lin_ok = False
+                if lin_ok and leaves:
+                    try:
+                        rest = [canon(show_segs([sg], 30)) for sg in segs[:3]]
+                        kinds = [sg for sg in segs[:3]]
+                        for lf in leaves:
+                            for sg in w.flatten(lf):
+                                c_ = canon(show_segs([sg], 30))
+                                if c_ in rest:
+                                    i_ = rest.index(c_)
+                                    rest.pop(i_)
+                                    kinds.pop(i_)
+                                else:
+                                    lin_ok = False
+                        hdr_ok = lin_ok and all(sg[0] == "const" for sg in kinds) and sum(len(sg[1]) for sg in kinds) == const_len
+                    except Unsupported:
+                        hdr_ok = False
             ok2 = hdr_ok and _self_attr(key, "session_key")
             why2 = "body offset is %s (documented: length of everything emitted before the body) / key %s" % (show(off, 4), show(key, 3))
         chk.require(ok2, P("bec2-body-offset"), fi.qualname, "bf3file.to_binary(len(header), self.session_key)", where, "the BF3 body is serialised with start offset = header length and the file's session key", why2)
@@ -363,6 +393,7 @@ def key_flow_rules(prog, chk, pid, hdr=None):
     ok = len(unp) == 1
     why = "no single dispatch <block class for tag>.unpack(value, ext_encryptors)"
     sess = None
+    via_get = None
     if ok:
         u = unp[0]
         recv = unsnap(u.d["fnterm"]).args[0] if u.kind == "dyncall" else u.d["recv"]
@@ -370,6 +401,12 @@ def key_flow_rules(prog, chk, pid, hdr=None):
         # (the tag / value may have travelled through a sequence of records -- e.g. a generator that yields them -- before being used: element views are looked through)
         from rules.bf3 import strip_elem as _se
 
+        # AUTH_BLOCK_CLS_MAP.get(tag), used only where it is known not to be None, selects the same class as AUTH_BLOCK_CLS_MAP[tag]
+        get_ = meth_call(recv)
+        if get_ and get_[1] == "get" and 1 <= len(get_[2]) <= 2 and (len(get_[2]) == 1 or unsnap(get_[2][1]) is NONE) and not (get_[3] if len(get_) > 3 else None):
+            if any(pol is False and rel(c, True)[0] == "rel" and rel(c, True)[1] == "Is" and {id(unsnap(rel(c, True)[2])), id(unsnap(rel(c, True)[3]))} == {id(recv), id(NONE)} for (c, pol) in u.facts):
+                via_get = recv
+                recv = mk("sub", get_[0], get_[2][0])
         ok = recv.op == "sub" and unsnap(recv.args[0]).op == "static" and unsnap(recv.args[0]).args[0].endswith("AUTH_BLOCK_CLS_MAP") and any(_se(recv.args[1]) is unsnap(v) for v in tagf.int_views)
         a = u.d["args"]
         ok = ok and len(a) == 2 and _se(a[0]) is unsnap(valf.result) and _is_param(a[1], "ext_encryptors")
@@ -430,13 +467,19 @@ def key_flow_rules(prog, chk, pid, hdr=None):
     chk.require(okg, P("same-key-guard"), fi.qualname, "session_key != common_session_key (and common is not None) -> raise", gs[0].where if gs else where, "a header whose blocks unwrap to different session keys is rejected, for every pair of blocks", whyg)
     # ---- unknown blocks keep tag and bytes
     news = [e for e in ev if e.kind == "new" and e.d["cls"].name == "UnknownAuthBlock"]
-    oku = len(news) == 1
+    oku = len(news) == (2 if via_get is not None else 1)
     if oku:
-        a = news[0].d["args"]
         from rules.bf3 import strip_elem as _se2
 
-        oku = len(a) == 2 and any(_se2(a[0]) is unsnap(v) for v in tagf.int_views) and _se2(a[1]) is unsnap(valf.result)
-        oku = oku and any(f[0] == "except" and "KeyError" in f[3] for f in news[0].ctx)
+        in_except = in_none = 0
+        for nw in news:
+            a = nw.d["args"]
+            oku = oku and len(a) == 2 and any(_se2(a[0]) is unsnap(v) for v in tagf.int_views) and _se2(a[1]) is unsnap(valf.result)
+            if any(f[0] == "except" and "KeyError" in f[3] for f in nw.ctx):
+                in_except += 1
+            elif via_get is not None and any(f[0] == "if" and f[2] and rel(f[1], True)[0] == "rel" and rel(f[1], True)[1] == "Is" and {id(unsnap(rel(f[1], True)[2])), id(unsnap(rel(f[1], True)[3]))} == {id(via_get), id(NONE)} for f in nw.ctx):
+                in_none += 1  # no class registered for the tag: the table lookup that would have raised KeyError answered None
+        oku = oku and in_except == 1 and in_none == (1 if via_get is not None else 0)
     chk.require(oku, P("unknown-block-identity"), fi.qualname, "except KeyError: UnknownAuthBlock(tag, value)", news[0].where if news else where, "a block that cannot be opened is kept with exactly the tag and bytes read", "blocks without decryptor are not preserved as (tag read, bytes read)")
     fu = prog.method(BEC2 + ".UnknownAuthBlock", "pack")
     exu = Exec(prog, policy=lambda e, f, d: False)
@@ -614,10 +657,19 @@ def selector_rules(prog, chk, pid):
                 "the selector filter is evaluated only for encryptors of the required class (others lack the attributes it reads)",
                 "the filter is applied to an encryptor before / without the isinstance test: a decryptor list that mixes encryptor kinds raises AttributeError out of the reader")
     rets = [e for e in res.events if e.kind == "return" and e.stack == (fi.qualname,) and any(f[0] == "loop" for f in e.ctx)]
-    okr = bool(rets)
+    # the other spelling of "first match wins": `break` at the match and the loop variable returned after the loop (for / else, or a flag)
+    late = [e for e in res.events if e.kind == "return" and e.stack == (fi.qualname,) and not any(f[0] == "loop" for f in e.ctx)
+            and any(x.op == "elem" for x in subterms(unsnap(e.d["value"])))]
+    brks = [e for e in res.events if e.kind == "break" and e.stack == (fi.qualname,)] if late else []
+    okr = bool(rets) or bool(brks)
+    if late and not brks:
+        okr = False
     for r in rets:
         v = r.d["value"]
         okr = okr and unsnap(v).op == "elem" and inst_guarded(r, v) and any(f[0] == "if" and f[2] and mentions_filter(f[1]) for f in r.ctx)
+    for b in brks:
+        elems = {x for r in late for x in subterms(unsnap(r.d["value"])) if x.op == "elem"}
+        okr = okr and len(elems) == 1 and all(inst_guarded(b, v) for v in elems) and any(f[0] == "if" and f[2] and mentions_filter(f[1]) for f in b.ctx)
     chk.require(okr, P("selected-passes-both-tests"), fi.qualname, "return encryptor only if isinstance(...) and (no filter or filter(encryptor))", where,
                 "the first encryptor that is of the required class AND passes the filter is chosen; later candidates are still examined when an earlier one fails the filter",
                 "an encryptor can be returned without passing the class test and the filter")
